@@ -44,7 +44,7 @@ def register(R):
                 ("not-found", "first(T, separator) == -1", "C02"),
                 ("buffer-full", "len(T) + 1 - len(separator) > len(buffer) - 1 - len(separator)", "C01 C07"),
                 ("consumed", "exc.consumed == len(T) + 1 - len(separator)", "C02"),
-                ("remainder-from-received-bytes-only", "exc.remaining_data == Resync(T, len(T) + 1 - len(separator), separator)", "C02"),
+                ("remainder-from-received-bytes-only", "exc.remaining_data == Resync(T, len(T) + 1 - len(separator), separator)", "C02 C06"),
             ]
         },
         modifies=["buffer"],
